@@ -6,7 +6,7 @@
 From Coq Require Import ZArith QArith Qcanon List Lia.
 From DV Require Import Base.Field Base.FieldFacts Base.LinAlg Base.QcInst Model.Enums Model.Homog Model.Grid Model.Sampler
   Model.SamplerQc Model.Flow Model.FlowQc Model.FlowRepr Gen.GridT Proofs.C11Interp Proofs.C11Compose Proofs.C11Expv
-  Proofs.C13Compose Proofs.C10Axes Proofs.C10Conv Proofs.C10Repr.
+  Proofs.C13Compose Proofs.C10Axes Proofs.C10Conv Proofs.C10Repr Proofs.C10Conv3.
 Import ListNotations.
 
 Section Statements.
@@ -81,6 +81,30 @@ Theorem C10_exp_code_partial :
   exp_code2 floorK (cube_of ac) g scale k (repr K nx ny g (cube_of ac) f)
   = exp_spec2 floorK (cube_of ac) g scale k (repr K nx ny g (cube_of ac) f).
 Proof. intros nx ny g Hx Hy Hw. intros _ _. exact (exp_code2_partial K Kf Kc floorK nx ny Hx Hy g Hw). Qed.
+(* 6. the same in three dimensions (compose / expv convention independence, exp as specified representation independent,
+      exp as coded = specification for cube axes) *)
+Theorem C10_compose_convention_independent_3d :
+  forall ac pad nx ny nz f g, (2 <= nx)%Z -> (2 <= ny)%Z -> (2 <= nz)%Z ->
+  compose3g floorK ac ac pad (to_cube3 K ac nx ny nz f) (to_cube3 K ac nx ny nz g)
+  = to_cube3 K ac nx ny nz (idx_comp3 K floorK pad nx ny nz f g).
+Proof. exact (compose3_is_index_space K Kf Kc floorK). Qed.
+Theorem C10_expv_convention_independent_3d :
+  forall ac nx ny nz scale inverse k f, (2 <= nx)%Z -> (2 <= ny)%Z -> (2 <= nz)%Z ->
+  expv3 floorK ac scale inverse k (to_cube3 K ac nx ny nz f)
+  = to_cube3 K ac nx ny nz (idx_expv3 K floorK nx ny nz (expv_pre k (expv_scale scale inverse)) k f).
+Proof. exact (expv3_is_index_space K Kf Kc floorK). Qed.
+Theorem C10_exp_spec_repr_independent_3d :
+  forall (nx ny nz : Z), (2 <= nx)%Z -> (2 <= ny)%Z -> (2 <= nz)%Z -> forall (g : @gridf K), gwf 3 g ->
+  fst (fst (fst g)) 0%nat = of_Z nx -> fst (fst (fst g)) 1%nat = of_Z ny -> fst (fst (fst g)) 2%nat = of_Z nz ->
+  forall A B scale k f,
+  field_map3 (gvecs 3 A B g) (exp_spec3 floorK A g scale k (repr3 K nx ny nz g A f)) = exp_spec3 floorK B g scale k (repr3 K nx ny nz g B f).
+Proof. exact (exp_spec3_repr_independent K Kf Kc floorK). Qed.
+Theorem C10_exp_code_partial_3d :
+  forall (nx ny nz : Z), (2 <= nx)%Z -> (2 <= ny)%Z -> (2 <= nz)%Z -> forall (g : @gridf K), gwf 3 g ->
+  forall ac scale k f,
+  exp_code3 floorK (cube_of ac) g scale k (repr3 K nx ny nz g (cube_of ac) f)
+  = exp_spec3 floorK (cube_of ac) g scale k (repr3 K nx ny nz g (cube_of ac) f).
+Proof. exact (exp_code3_partial K Kf Kc floorK). Qed.
 End Statements.
 
 Print Assumptions C10_axes_roundtrip.
@@ -92,6 +116,10 @@ Print Assumptions C10_expv_convention_independent.
 Print Assumptions C10_warp_repr_independent.
 Print Assumptions C10_exp_spec_repr_independent.
 Print Assumptions C10_exp_code_partial.
+Print Assumptions C10_compose_convention_independent_3d.
+Print Assumptions C10_expv_convention_independent_3d.
+Print Assumptions C10_exp_spec_repr_independent_3d.
+Print Assumptions C10_exp_code_partial_3d.
 
 (* ... FULL statement (does NOT hold for the unchanged code, DESIGN section 5 #6): exp_code2 = exp_spec2 for every axes.
    FlowFields.exp computes `flow = self.axes(cube)` but then exponentiates `self.tensor()`, the UNCONVERTED vectors.
